@@ -28,6 +28,7 @@ var checkGid = os.Getenv("VERIF_CHECKGID") != ""
 type taskMark struct {
 	magic uint64
 	task  *Task
+	sim   *Sim
 }
 
 const markMagic = 0x73696d72745f746b
@@ -36,7 +37,7 @@ const markMagic = 0x73696d72745f746b
 func bindTask(t *Task) {
 	t.gid = goid()
 	if !useGoid {
-		t.mark = &taskMark{magic: markMagic, task: t}
+		t.mark = &taskMark{magic: markMagic, task: t, sim: cur()}
 		runtimeSetProfLabel(unsafe.Pointer(t.mark))
 	}
 }
@@ -84,13 +85,11 @@ func boundTask(s *Sim) *Task {
 	if p == nil {
 		return nil
 	}
-	// a goroutine started with a plain go statement inherits its parent's label slot: only a
-	// mark of this simulator whose task is live and runs on this very slot counts
-	for i := 0; i < s.ntasks; i++ {
-		t := s.tasks[i]
-		if unsafe.Pointer(t.mark) == p && t.state != stDone {
-			return t
-		}
+	// only a mark of this simulator whose task is still live counts (a goroutine started with a
+	// plain go statement inherits its parent's label slot until it binds its own)
+	m := (*taskMark)(p)
+	if m.magic != markMagic || m.sim != s || m.task == nil || m.task.mark != m || m.task.state == stDone {
+		return nil
 	}
-	return nil
+	return m.task
 }
